@@ -33,6 +33,7 @@ RULE += (
          'encoding in 13 contexts x 4 insertion forms. ')
 RULE += ('Round 8: the dotted entity with an empty modifier list. ')
 RULE += ('Round 9: long-form old-syntax variables; names like var-tag attributes and in mixed case. ')
+RULE += ('Round 10: white space inside quoted attribute values. ')
 ASSUMPTIONS = [
     'whether a name is written x or name=x (an expression "e" or expr="e") '
     'is recorded in the compiled attribute dictionary, so it is pinned per '
